@@ -1531,7 +1531,9 @@ func TestVerif_C27_Fault(t *testing.T) {
 		ends1, ends2 := vf27Ends(run1), vf27Ends(run2)
 		ref := vf27LoadSeg(t, vf27Record(t, t.TempDir(), "cam", run1)[0])
 		if ref.LayoutErr != "" {
-			t.Fatalf("reference recording: %s", ref.LayoutErr)
+			// the layout monitors of TestVerif_C27_Crash report this; the faults cannot be placed
+			out.Emit(map[string]any{"kind": "nofault", "stream": kind, "reason": "reference recording: " + ref.LayoutErr})
+			continue
 		}
 		fed := map[int]vf27Unit{}
 		for k, v := range byID1 {
